@@ -11,13 +11,31 @@ import argparse, concurrent.futures, glob, json, os, re, shutil, subprocess, sys
 V = os.path.dirname(os.path.dirname(os.path.abspath(__file__)))
 
 
-def run_one(path, repo, tier):
+def load(path):
+    """a control: a semantic patch (selftest/mutants/*.json) or an independently seeded change (seeded/<dir>/meta.json +
+    patch.diff), which must be caught by the check of its own property"""
     m = json.load(open(path))
+    if os.path.basename(path) == "meta.json" and "edits" not in m:
+        d = os.path.dirname(os.path.abspath(path))
+        return {"id": "seeded:" + os.path.basename(d), "property": [m["property"]], "kind": "break", "expect": "", "patch": os.path.join(d, "patch.diff"), "why": m.get("needs_to_manifest", "")}
+    return m
+
+
+def all_controls():
+    return sorted(glob.glob(os.path.join(V, "selftest", "mutants", "*.json"))) + sorted(glob.glob(os.path.join(V, "seeded", "*", "meta.json")))
+
+
+def run_one(path, repo, tier):
+    m = load(path)
     props = m["property"] if isinstance(m["property"], list) else [m["property"]]
     d = tempfile.mkdtemp(prefix="hm-")
     try:
         subprocess.run(["rsync", "-a", "--exclude", "target", "--exclude", ".git", repo + "/", d + "/"], check=True)
-        for e in m["edits"]:
+        if m.get("patch"):
+            pr = subprocess.run(["patch", "-p1", "-s", "--no-backup-if-mismatch", "-i", m["patch"]], cwd=d, capture_output=True, text=True)
+            if pr.returncode != 0:
+                return (m["id"], "SKIPPED", "patch does not apply: %s" % (pr.stdout + pr.stderr)[-120:], props)
+        for e in m.get("edits", []):
             p = os.path.join(d, e["file"])
             s = open(p).read()
             if e.get("regex"):
@@ -60,12 +78,12 @@ def main():
     ap.add_argument("--tier", default="quick")
     ap.add_argument("--only")
     a = ap.parse_args()
-    files = a.files or sorted(glob.glob(os.path.join(V, "selftest", "mutants", "*.json")))
+    files = a.files or all_controls()
     if a.only:
         want = set(a.only.split(","))
         keep = []
         for f in files:
-            m = json.load(open(f))
+            m = load(f)
             props = m["property"] if isinstance(m["property"], list) else [m["property"]]
             if want & set(props):
                 keep.append(f)
